@@ -46,6 +46,10 @@ class Problem(object):
     def lipschitz(self, k=1.0):
         return 1.0
 
+    def amplification(self, t0, t1, k=1.0):
+        """sup of the sensitivity of y(t1) to a perturbation introduced at any s between t0 and t1."""
+        return math.exp(self.lipschitz(k) * abs(t1 - t0))
+
 
 class Linear(Problem):
     """y' = k * A y  (y flattened), exact by expm."""
@@ -74,6 +78,11 @@ class Linear(Problem):
 
     def lipschitz(self, k=1.0):
         return abs(k) * float(np.linalg.norm(self.A64, 2))
+
+    def amplification(self, t0, t1, k=1.0):
+        from scipy.linalg import expm
+        T = t1 - t0
+        return max(float(np.linalg.norm(expm(k * self.A64 * (T * j / 16.0)), 2)) for j in range(17))
 
 
 class Oscillators(Problem):
@@ -124,6 +133,9 @@ class Oscillators(Problem):
 
     def lipschitz(self, k=1.0):
         return abs(k) * float(np.max(np.abs(self.w64)))
+
+    def amplification(self, t0, t1, k=1.0):
+        return 1.0
 
 
 class Duffing(Problem):
@@ -220,6 +232,9 @@ class CosDecay(Problem):
 
     def lipschitz(self, k=1.0):
         return abs(k) * float(np.max(np.abs(self.a64)))
+
+    def amplification(self, t0, t1, k=1.0):
+        return math.exp(2.0 * abs(k) * float(np.max(np.abs(self.a64))) / abs(self.w64))
 
 
 class SmoothNet(Problem):
